@@ -148,9 +148,17 @@ func cmdRun(args []string) int {
 	trace := fs.Bool("trace", false, "trace instructions")
 	workers := fs.Int("w", 16, "workers")
 	native := fs.Bool("native", true, "confirm natively")
+	prop := fs.String("p", "", "property whose generator runs are needed (generated-code harnesses)")
 	fs.Parse(args)
 	tmp, _ := os.MkdirTemp("", "gosym")
 	defer os.RemoveAll(tmp)
+	if *prop != "" {
+		if ps := loadProps()[*prop]; ps != nil {
+			if err := runGenerators(ps, tmp); err != nil {
+				fatal("%v", err)
+			}
+		}
+	}
 	ld, err := prepareOverlay(strings.Split(*pkg, ","), tmp)
 	if err != nil {
 		fatal("%v", err)
